@@ -184,10 +184,37 @@ def check_drop_stop(ctx, fb, rd):
         key = 'R-ROUTE.drop %s::Drop' % f.clsq.split('::')[-1]
         ctx.instance(rd, key + ' :: ' + f.cls[:140], None)
 
+        def stores_stop_everywhere(g, depth=0):
+            """g stores StopTag on every path (a helper of the class or of a base class that does it counts)"""
+            def hit(b, i, e):
+                if not isinstance(e, int):
+                    return False
+                m = g.nodes[e]
+                last = m.get('cn', '').split('::')[-1]
+                if last in ('Store', 'CallImpl', 'Done') and any(
+                        'yaclib::StopTag' in g.nodes[d].get('t', '') for a in m.get('args', [])
+                        for d in g.descendants(a)):
+                    return True
+                if depth < 2 and m['k'] == 'CXXMemberCallExpr':
+                    h = fb.fn.get(m.get('ck'))
+                    if h is not None and h.cfg is not None and 'virtual' not in h.flags and (
+                            h.cls == g.cls or h.cls in fb.all_bases(g.cls) or h.clsq in (
+                                'yaclib::detail::UniqueCore', 'yaclib::detail::SharedCore',
+                                'yaclib::detail::ResultCore', 'yaclib::detail::BaseCore')):
+                        return stores_stop_everywhere(h, depth + 1)
+                return False
+            return g.cfg.reaches_exit_without((g.cfg.entry, -1), hit) is None
+
         def is_stop(b, i, e):
             if not isinstance(e, int):
                 return False
             m = f.nodes[e]
+            if m['k'] == 'CXXMemberCallExpr' and m.get('cn', '').split('::')[-1] not in ('Store', 'CallImpl', 'Done'):
+                h = fb.fn.get(m.get('ck'))
+                if h is not None and h.cfg is not None and 'virtual' not in h.flags and h.qn != f.qn and (
+                        h.cls == f.cls or h.cls in fb.all_bases(f.cls)):
+                    return stores_stop_everywhere(h, 1)
+                return False
             if m.get('cn', '').split('::')[-1] not in ('Store', 'CallImpl', 'Done'):
                 return False
             return any('yaclib::StopTag' in f.nodes[d].get('t', '') for a in m.get('args', [])
